@@ -552,15 +552,16 @@ impl Report {
         }
         let known = load_known();
         let wall = self.started.elapsed().as_secs_f64();
-        // vacuity guards
+        // vacuity guards: a zero antecedent counter makes a quiet run worthless; next to a reported
+        // violation it is only a note (the counter usually counts the cases that passed a clause)
+        let mut vacuous = vec![];
         for (p, c) in self.required.clone() {
             let ok = self
                 .parts
                 .iter()
                 .any(|ps| ps.name == p && ps.counters.get(&c).copied().unwrap_or(0) > 0);
             if !ok {
-                self.machinery_errors
-                    .push(format!("vacuity guard: counter '{c}' of part '{p}' is zero"));
+                vacuous.push(format!("vacuity guard: counter '{c}' of part '{p}' is zero"));
             }
         }
         let mut new_viol = 0;
@@ -594,6 +595,13 @@ impl Report {
                     truncate(&f.viol.detail, 1200),
                     f.count
                 ));
+            }
+        }
+        if new_viol == 0 {
+            self.machinery_errors.extend(vacuous);
+        } else {
+            for v in vacuous {
+                lines.push(format!("  note: {v}"));
             }
         }
         let evaluations: u64 = self.parts.iter().map(|p| p.executed).sum();
